@@ -118,6 +118,16 @@ def write_readme(rows):
         for name, P, keep, caught, incon, ran in rows:
             if keep:
                 fh.write('| %s | %s | %s | %s | %s |\n' % (name, P, ', '.join(caught) or '**none**', ', '.join(incon), ', '.join(ran)))
+        # later `fix:` commits touch the context of some older patches: those apply at the commit they were confirmed at
+        stale = []
+        for name, P, keep, caught, incon, ran in rows:
+            pd = os.path.join(OUT, name, 'patch.diff')
+            if keep and os.path.exists(pd) and subprocess.run(['git', '-C', '/repo', 'apply', '--check', pd], stdout=subprocess.PIPE, stderr=subprocess.PIPE).returncode:
+                at = json.load(open(os.path.join(OUT, name, 'meta.json'))).get('applies_to_repo_head', '?')
+                stale.append('%s (at %s)' % (name, at))
+        if stale:
+            fh.write('\nPatches whose context was changed by later `fix:` commits in /repo; they apply at the commit they were confirmed at '
+                     '(`git -C /repo worktree add <dir> <commit>`): ' + ', '.join(stale) + '.\n')
 
 
 if __name__ == '__main__':
